@@ -787,3 +787,111 @@ def r_truncate_on_conflict(ctx):
             elif states:
                 ctx.ok(inst, h.loc(c), 'a stored-vs-received disequality holds on all %d path classes' % len(states))
     ctx.expect_min(1)
+
+
+@rule('R-leader-append-position', 'a leader appends only at (own last index + 1, current term); on becoming leader it appends a '
+                                  'no-op of its own term and remembers its index')
+def r_leader_append_position(ctx):
+    P, R = ctx.P, ctx.R
+    idx_pos, term_pos = journal_positions(P)
+    sites = [(f, c) for f, c, via in log_op_sites(ctx, 'add') if f is not R.handler and f.name != '__init__' and f.owner_cls is R.S]
+    from .storage import loader_func as _lf
+    loader = loader_func(ctx)
+    sites = [(f, c) for f, c in sites if f is not loader]
+    ctx.require(sites, 'no leader-side append site')
+    for f, c in sites:
+        ex = U.explorer(ctx, f)
+        res = U.full_run(ctx, f)
+        n = U.node_containing(ex.cfg, c)
+        inst = '%s: `%s` appends at the end of the log in the current term' % (f.qualname, unparse(c)[:60])
+        if len(c.args) != 3:
+            ctx.unproven(inst, f.loc(c), 'append is not add(command, idx, term)')
+            continue
+        want_i = ex.tb.term(U.parse_expr('self.%s[-1][%d] + 1' % (R.log, idx_pos)))
+        want_t = ex.tb.term(U.parse_expr('self.%s' % R.currentTerm))
+        g = ('and', ('eq', ex.tb.term(c.args[1]), want_i), ('eq', ex.tb.term(c.args[2]), want_t))
+        ok, cex = U.must(ctx, res, n.id, g)
+        if ok:
+            ctx.ok(inst, f.loc(c), 'idx == last index + 1 and term == currentTerm entailed')
+        else:
+            ctx.violation('%s:leader-append-position' % f.qualname, f.loc(c),
+                          'the leader appends `%s` at a position / term that is not (last index + 1, currentTerm) on every path: %s' % (unparse(c), res.path_str(n.id, cex)), instance=inst)
+    # no-op on becoming leader
+    from .election import become_leader_func
+    bl = become_leader_func(ctx)
+    if bl:
+        b = bl[0]
+        noops = [c for f, c in sites if f is b and c.args and any(isinstance(x, ast.Attribute) and x.attr == 'NO_OP' for x in ast.walk(c.args[0]))]
+        inst = 'new leader appends a no-op of its own term'
+        ctx.tick()
+        if noops:
+            # its index is remembered (used by the membership gate)
+            rec = [n for n in ast.walk(b.node) if isinstance(n, ast.Assign) and P.self_attr(n.targets[0], b.self_name) and unparse(n.value) == unparse(noops[0].args[1])]
+            if rec:
+                ctx.ok(inst, b.loc(noops[0]), 'index remembered in self.%s' % P.self_attr(rec[0].targets[0], b.self_name))
+            else:
+                ctx.violation('%s:noop-index-not-recorded' % b.qualname, b.loc(noops[0]), 'the index of the new leader\'s no-op entry is not recorded (the membership gate compares against it)', instance=inst)
+        else:
+            ctx.violation('%s:no-noop-on-election' % b.qualname, b.loc(), 'a new leader does not append a no-op entry of its own term: entries of earlier terms are never committed '
+                          '(the commit rule only counts current-term entries) and the membership gate never opens', instance=inst)
+    ctx.expect_min(2)
+
+
+@rule('R-sender-prev-adjacent', 'append_entries carries as prevLogIdx / prevLogTerm the index and term of the entry right '
+                                'before the first entry it sends (next index - 1)')
+def r_sender_prev_adjacent(ctx):
+    P, R = ctx.P, ctx.R
+    from .raftmisc import sender_func
+    idx_pos, term_pos = journal_positions(P)
+    f = sender_func(ctx)
+    ex = U.explorer(ctx, f)
+    res = U.full_run(ctx, f)
+    n_sites = 0
+    for c, d, t, tgt in U.send_sites(ctx, f):
+        if t != 'append_entries' or d is None or U.dict_get(d, 'prevLogIdx') is None:
+            continue
+        n_sites += 1
+        pv = U.dict_get(d, 'prevLogIdx')
+        pt = U.dict_get(d, 'prevLogTerm')
+        inst = 'prev position of `%s` message at line %d' % ('chunked' if U.dict_get(d, 'transmission') is not None else 'entries', c.lineno)
+        # the pair comes from one helper call helper(X) returning (X - 1, term of entry X - 1)
+        defs = [s_ for s_ in U.walk_no_nested(f.node) if isinstance(s_, ast.Assign) and isinstance(s_.targets[0], ast.Tuple)
+                and [unparse(e) for e in s_.targets[0].elts] == [unparse(pv), unparse(pt)] and isinstance(s_.value, ast.Call)]
+        ctx.tick()
+        if not defs:
+            ctx.unproven(inst, f.loc(c), 'prevLogIdx/prevLogTerm are not produced together by one helper call')
+            continue
+        call = defs[-1].value
+        r = P.resolve_call(f, call)
+        if r.kind != 'method' or not r.targets or not call.args:
+            ctx.unproven(inst, f.loc(c), 'helper not resolved')
+            continue
+        hlp = r.targets[0]
+        hex_ = U.explorer(ctx, hlp)
+        hres = U.full_run(ctx, hlp)
+        param = hlp.params[1]
+        okh = False
+        problems = []
+        for n in hex_.cfg.nodes:
+            if n.kind == 'stmt' and isinstance(n.ast, ast.Return) and isinstance(n.ast.value, ast.Tuple) and len(n.ast.value.elts) == 2 \
+                    and not (isinstance(n.ast.value.elts[0], ast.Constant) and n.ast.value.elts[0].value is None):
+                e0, e1 = n.ast.value.elts
+                want = hex_.tb.term(U.parse_expr('%s - 1' % param))
+                if all(oracle.entails(fs, ('eq', hex_.tb.term(e0), want)) for fs in hres.facts_at(n.id)) and hres.facts_at(n.id):
+                    okh = True
+                else:
+                    problems.append('helper returns `%s` as the previous index, not %s - 1' % (unparse(e0), param))
+                if not unparse(e1).endswith('[%d]' % term_pos):
+                    problems.append('helper returns `%s`, not the term component of the previous entry' % unparse(e1))
+                    okh = False
+        # the first sent entry is the one at the helper's argument
+        firsts = [s_ for s_ in U.walk_no_nested(f.node) if isinstance(s_, ast.Assign) and isinstance(s_.value, ast.Call) and s_.value.args
+                  and unparse(s_.value.args[0]) == unparse(call.args[0]) and s_.value is not call]
+        if not firsts:
+            problems.append('entries are not fetched from the index the previous position was computed for (`%s`)' % unparse(call.args[0]))
+        if okh and not problems:
+            ctx.ok(inst, f.loc(c), 'prev = %s(%s) = (%s - 1, its term); entries fetched from %s' % (hlp.name, unparse(call.args[0]), unparse(call.args[0]), unparse(call.args[0])))
+        else:
+            ctx.violation('%s:prev-position-not-adjacent' % f.qualname, f.loc(c), '; '.join(problems) or 'previous position is not next index - 1', instance=inst)
+    ctx.require(n_sites >= 1, 'no append_entries message with prevLogIdx')
+    ctx.expect_min(1)
